@@ -21,56 +21,116 @@ func init() {
 
 func runC02(a *A) {
 	wmT := func() *types.Named { return a.Named("window", "Watermark") }
-	a.Rule("ordtab/watermark-monotone", 4, func() {
+	a.Rule("ordtab/watermark-monotone", 2, func() {
 		W := wmT()
 		cur := a.FieldOf(W, "currentWatermark")
 		maxF := a.FieldOf(W, "maxEventTime")
-		for _, m := range []string{"update", "UpdateEventTime"} {
-			fn := a.Method("window", "Watermark", m)
+		// every store to the watermark / the maximum event time, in whichever function of the package it
+		// sits (update, UpdateEventTime, or a helper they share), raises the value: guarded by a comparison
+		// that the new value is later
+		for _, fn := range a.ModFuncs {
+			if fn.Pkg != a.Pkg("window") || fn.Blocks == nil {
+				continue
+			}
 			for _, st := range storesToField(fn, cur) {
+				if isFreshObject(st.Addr.(*ssa.FieldAddr)) {
+					continue
+				}
 				a.storeOnlyIfGreater(fn, st, cur, false)
 			}
 			for _, st := range storesToField(fn, maxF) {
+				if isFreshObject(st.Addr.(*ssa.FieldAddr)) {
+					continue
+				}
 				a.storeOnlyIfGreater(fn, st, maxF, true)
 			}
 		}
-		// no other writer
-		a.ruleWriters("ordtab/watermark-monotone", W, "currentWatermark", map[string]string{
-			"(*window.Watermark).update": "periodic tick, guarded", "(*window.Watermark).UpdateEventTime": "per event, guarded",
-		})
-		a.ruleWriters("ordtab/watermark-monotone", W, "maxEventTime", map[string]string{
-			"(*window.Watermark).UpdateEventTime": "per event, guarded",
-		})
+		// and nobody outside package window writes them
+		for _, fld := range []*types.Var{cur, maxF} {
+			for _, fn := range a.ModFuncs {
+				if fn.Blocks == nil || fn.Pkg == a.Pkg("window") {
+					continue
+				}
+				for _, st := range storesToField(fn, fld) {
+					a.Bad("Watermark."+fld.Name()+"<-"+fname(fn), st.Pos(), "%s writes Watermark.%s from outside package window", fname(fn), fld.Name())
+				}
+			}
+		}
 	})
 	a.Rule("flow/last-sent", 1, func() { a.ruleLastSent() })
-	a.Rule("shape/watermark-formula", 3, func() {
+	a.Rule("shape/watermark-formula", 2, func() {
 		W := wmT()
 		cur := a.FieldOf(W, "currentWatermark")
-		for _, m := range []string{"update", "UpdateEventTime"} {
-			fn := a.Method("window", "Watermark", m)
-			for _, st := range storesToField(fn, cur) {
-				for _, leaf := range phiLeaves(st.Val) {
-					t := TermOf(leaf, nil)
-					ok := t.Kind == "call" && t.Name == "(time.Time).Add" && len(t.Args) == 2 &&
-						t.Args[1].Kind == "un" && t.Args[1].Name == "-" && isFieldOf(t.Args[1].Args[0], "window.Watermark", "maxOutOfOrderness")
-					src := ""
-					if ok {
-						x := t.Args[0]
-						switch {
-						case x.Kind == "param":
-							src = "the event time"
-						case isFieldOf(x, "window.Watermark", "maxEventTime"):
-							src = "maxEventTime"
-						case x.Kind == "call" && x.Name == "time.Now":
-							src = "now (idle-source branch)"
-						default:
-							ok = false
+		// the candidate may be computed where it is stored, handed to a helper as a parameter, or returned
+		// by a helper: followed through parameters (all call sites) and results (all returns)
+		var judge func(v ssa.Value, fn *ssa.Function, d int)
+		seen := map[ssa.Value]bool{}
+		judge = func(v ssa.Value, fn *ssa.Function, d int) {
+			if seen[v] || d > 6 {
+				return
+			}
+			seen[v] = true
+			switch x := v.(type) {
+			case *ssa.Phi:
+				for _, e := range x.Edges {
+					judge(e, fn, d+1)
+				}
+				return
+			case *ssa.Parameter:
+				if node := a.CG().Nodes[x.Parent()]; node != nil && len(node.In) > 0 {
+					idx := -1
+					for i, q := range x.Parent().Params {
+						if q == x {
+							idx = i
 						}
 					}
-					a.Check(ok, fname(fn)+"#candidate", leaf.Pos(),
-						"candidate watermark = "+src+" - maxOutOfOrderness",
-						"candidate watermark is "+t.String()+", expected X.Add(-maxOutOfOrderness) with X the event time / maxEventTime / now")
+					for _, e := range node.In {
+						if args := e.Site.Common().Args; idx >= 0 && idx < len(args) {
+							judge(args[idx], e.Caller.Func, d+1)
+						}
+					}
+					return
 				}
+			case *ssa.Call:
+				if sc := x.Call.StaticCallee(); sc != nil && sc.Blocks != nil && sc.Pkg == a.Pkg("window") && !isTimeMethodCall(x) {
+					for _, b := range sc.Blocks {
+						if ret, ok := b.Instrs[len(b.Instrs)-1].(*ssa.Return); ok && len(ret.Results) > 0 {
+							judge(ret.Results[0], sc, d+1)
+						}
+					}
+					return
+				}
+			}
+			t := TermOf(v, nil)
+			ok := t.Kind == "call" && t.Name == "(time.Time).Add" && len(t.Args) == 2 &&
+				t.Args[1].Kind == "un" && t.Args[1].Name == "-" && isFieldOf(t.Args[1].Args[0], "window.Watermark", "maxOutOfOrderness")
+			src := ""
+			if ok {
+				x := t.Args[0]
+				switch {
+				case x.Kind == "param":
+					src = "the event time / the tick's now"
+				case isFieldOf(x, "window.Watermark", "maxEventTime"):
+					src = "maxEventTime"
+				case x.Kind == "call" && x.Name == "time.Now":
+					src = "now (idle-source branch)"
+				default:
+					ok = false
+				}
+			}
+			a.Check(ok, fname(fn)+"#candidate", v.Pos(),
+				"candidate watermark = "+src+" - maxOutOfOrderness",
+				"candidate watermark is "+t.String()+", expected X.Add(-maxOutOfOrderness) with X the event time / maxEventTime / now")
+		}
+		for _, fn := range a.ModFuncs {
+			if fn.Pkg != a.Pkg("window") || fn.Blocks == nil {
+				continue
+			}
+			for _, st := range storesToField(fn, cur) {
+				if isFreshObject(st.Addr.(*ssa.FieldAddr)) {
+					continue
+				}
+				judge(st.Val, fn, 0)
 			}
 		}
 	})
@@ -622,3 +682,5 @@ func (a *A) paramAlways(t *Term, pred func(*Term) bool) bool {
 	}
 	return true
 }
+
+func isTimeMethodCall(c *ssa.Call) bool { return timeMethod(&c.Call) != "" }
